@@ -2,6 +2,7 @@ import RedisVerif.Driver.C01
 import RedisVerif.Model.SkipList
 import RedisVerif.Model.DataStructs
 import RedisVerif.Model.ExecutorCode
+import RedisVerif.Model.RedisX
 
 /-
   C01 / C17 sub-driver, extended with the DATA-STRUCTURE lines (`DS …`): the transcription models of
@@ -158,11 +159,32 @@ def codeLine (now : Nat) : P (Nat × ExecutorCode.CodeCmd × State) := do
   let s ← dump now
   pure (now, c, s)
 
+/-- `<now> X SETBIT k off bit | GETBIT k off | BATCHSET n {k v} | BATCHGET n {k} | KEYS <pattern> ;; <dump>`:
+    the commands of `Model.RedisX` -/
+def xLine (now : Nat) : P (Nat × RedisX.XCmd × State) := do
+  let t ← tok
+  let c ← (match t with
+    | "SETBIT" => do let k ← strKey; let o ← nat; let b ← nat; pure (RedisX.XCmd.setbit k o b)
+    | "GETBIT" => do let k ← strKey; let o ← nat; pure (RedisX.XCmd.getbit k o)
+    | "BATCHSET" => do let kvs ← kvList; pure (RedisX.XCmd.batchset kvs)
+    | "BATCHGET" => do let ks ← keyList; pure (RedisX.XCmd.batchget ks)
+    | "KEYS" => do let p ← bytesTok; pure (RedisX.XCmd.keys p)
+    | _ => failure)
+  expect ";;"
+  let s ← dump now
+  pure (now, c, s)
+
 def stepLine (st : DState) (l : String) : DState × String :=
   match tokens l with
   | "DS" :: rest =>
     match (dsLine st).run rest with
     | some (r, []) => r
+    | _ => (st, "bad-op")
+  | nowTok :: "X" :: rest =>
+    match (nowTok.toNat?).bind (fun now => (xLine now).run rest) with
+    | some ((now, c, s), []) =>
+      let r := RedisX.stepX st.redis now c
+      ({ st with redis := s }, s!"{showReply r.2} | {showDump r.1 now} | ro={b01 (RedisX.isReadOnlyX c)}")
     | _ => (st, "bad-op")
   | nowTok :: "CODE" :: rest =>
     match (nowTok.toNat?).bind (fun now => (codeLine now).run rest) with
